@@ -27,6 +27,7 @@ import PGProofs.RewardsThm
 import PGProofs.Labelled
 import PGProofs.ConfigThm
 import PGProofs.EndToEnd
+import PGProofs.EndToEnd3
 
 set_option linter.all false
 set_option pp.fieldNotation.generalized false
@@ -109,6 +110,12 @@ theorem end_to_end_named_labelled : type_of% @PG.EndToEnd.moment_call_named_eq_l
 /-- a concrete two-deme instance with every dict reversed -/
 theorem end_to_end_named_instance : ∀ {K : Type} [inst : Field K] [inst_1 : LinearOrder K] [inst_2 : IsStrictOrderedRing K] (L : ExpLaw K) (n : ℕ) (eps : List EpochT) (sd tm : ℚ) (v : Api.Variant), EndToEnd.momentCallK v (EndToEnd.codeCtx L (fun x ↦ EndToEnd.exGI EndToEnd.exI') n (Config.initFn EndToEnd.exI' (List.length (Config.axis EndToEnd.exI))) eps (EndToEnd.NamedReward.resolve EndToEnd.exI' EndToEnd.NamedReward.treeHeight) sd tm) (EndToEnd.mapRewards (EndToEnd.NamedReward.resolve EndToEnd.exI') { k := 2, rewards := some [EndToEnd.NamedReward.deme "a", EndToEnd.NamedReward.treeHeight] }) = EndToEnd.momentCallK v (EndToEnd.codeCtx L (fun x ↦ EndToEnd.exGI EndToEnd.exI) n (Config.initFn EndToEnd.exI (List.length (Config.axis EndToEnd.exI))) eps (EndToEnd.NamedReward.resolve EndToEnd.exI EndToEnd.NamedReward.treeHeight) sd tm) (EndToEnd.mapRewards (EndToEnd.NamedReward.resolve EndToEnd.exI) { k := 2, rewards := some [EndToEnd.NamedReward.deme "a", EndToEnd.NamedReward.treeHeight] }) := @PG.EndToEnd.named_invariant_instance
 
+/-- CAPSTONE: both listings driven by the epoch generator: a re-listed input generates literally the same event list (Relisted.toEvents_eq), the same epoch boundaries and name-permuted tables, and moment(...) returns the same value for rewards given by name -/
+theorem end_to_end_named_both_runs : ∀ {K : Type} [inst : Field K] [inst_1 : LinearOrder K] [inst_2 : IsStrictOrderedRing K] (I I' : Config.Input), EndToEnd.Relisted I I' → EndToEnd.DictInput I → Config.ValidSetOrder I → Config.ValidSetOrder I' → ∀ (o : DemoOpts) (count : ℕ), List.length (changeTimes (EndToEnd.toEvents I)) < count → ∀ {m : Model} (tsOf : ℚ → ℚ) {cinit cinit' : Fin (List.length (Config.axis I)) → ℕ} {r r' : ℕ → ℚ} {fuel fuel' : ℕ → ℕ} {G G' : ℕ → Graph}, (∀ (e : ℕ), bfs (transit m (mkEpoch (EndToEnd.demoTs tsOf I (EndToEnd.demoEpochs o I count) (List.length (Config.axis I)) e) (EndToEnd.demoMig I (EndToEnd.demoEpochs o I count) (List.length (Config.axis I)) e) (r e))) (encLC cinit) (fuel e) = some (G e)) → (∀ (e : ℕ), bfs (transit m (mkEpoch (EndToEnd.demoTs tsOf I' (EndToEnd.demoEpochs o I' count) (List.length (Config.axis I)) e) (EndToEnd.demoMig I' (EndToEnd.demoEpochs o I' count) (List.length (Config.axis I)) e) (r' e))) (encLC cinit') (fuel' e) = some (G' e)) → ∑ d, cinit' d = ∑ d, cinit d → ∀ (L : ExpLaw K) (n : ℕ), ∑ d, Config.initFn I (List.length (Config.axis I)) d = ∑ d, cinit d → ∀ (dr : EndToEnd.NamedReward) (sd tm : ℚ) (v : Api.Variant) (c : Api.MomentCall EndToEnd.NamedReward), EndToEnd.NamedReward.OnAxis I dr → (∀ (rs : List EndToEnd.NamedReward), c.rewards = some rs → ∀ nr ∈ rs, EndToEnd.NamedReward.OnAxis I nr) → EndToEnd.momentCallK v (EndToEnd.codeCtx L G' n (Config.initFn I' (List.length (Config.axis I))) (List.map Epoch.toT (EndToEnd.demoEpochs o I' count)) (EndToEnd.NamedReward.resolve I' dr) sd tm) (EndToEnd.mapRewards (EndToEnd.NamedReward.resolve I') c) = EndToEnd.momentCallK v (EndToEnd.codeCtx L G n (Config.initFn I (List.length (Config.axis I))) (List.map Epoch.toT (EndToEnd.demoEpochs o I count)) (EndToEnd.NamedReward.resolve I dr) sd tm) (EndToEnd.mapRewards (EndToEnd.NamedReward.resolve I) c) := @PG.EndToEnd.named_invariant_both_runs_with_demography
+
+/-- listing order, omission of unsampled demes and set order do not change the translated event list -/
+theorem relisted_same_events : ∀ {I I' : Config.Input}, EndToEnd.Relisted I I' → EndToEnd.toEvents I' = EndToEnd.toEvents I := @PG.EndToEnd.Relisted.toEvents_eq
+
 end PG.C08
 
 #print axioms PG.C08.moments_perm
@@ -136,3 +143,5 @@ end PG.C08
 #print axioms PG.C08.end_to_end_named
 #print axioms PG.C08.end_to_end_named_labelled
 #print axioms PG.C08.end_to_end_named_instance
+#print axioms PG.C08.end_to_end_named_both_runs
+#print axioms PG.C08.relisted_same_events
